@@ -126,7 +126,9 @@ def run(ctx):
         first = [("p%d" % (i + 1), True, rng.choice([0, 100]), 0) for i in range(npar)]
         failing = ("build", False, 50, rng.choice([1, 3]))
         tail = [("check", False, rng.choice([300, 600]), 0 if t % 2 == 0 else 2), ("pack", rng.random() < 0.5, 100, 0), ("last", False, 0, 0)]
-        cfg1 = dict(steps=first + [failing] + tail, skip=[], cmdline_skip=[], ncpu=2)
+        # a step behind the resume point is skipped (by the configuration, or with -s when the invocation began)
+        sk = [["pack"], ["check"], []][t % 3]
+        cfg1 = dict(steps=first + [failing] + tail, skip=sk, cmdline_skip=sk if t % 2 else [], ncpu=2)
         r1 = cr.run(cfg1)
         analyse(ctx, cfg1, dict(r1, detached=False), "canvas -d (to be resumed)")
         if not r1["builddir"]:
